@@ -1158,3 +1158,51 @@ func TestC12ClosePanics(t *testing.T) {
 		}
 	})
 }
+
+// TestC10ClosePanics: "every instance created by the container that has a Close
+// method is closed exactly once" has no condition attached. A Close method that
+// panics is one failed disposal; every other instance of the scope, of its
+// descendants and of the provider is still closed, once.
+func TestC10ClosePanics(t *testing.T) {
+	col := evid.New("C10", "panicking-close-methods", "configurations biased to disposable services in which the Close methods of a random third of the registrations panic; sequential histories over scope trees (contexts that nobody cancels) ending in provider close; oracle = the C10 ledger oracle at the end: every disposable a constructor returned to the container has received exactly one Close call - the panicking ones too - and none before its owner started closing; non-trivial = a panicking Close method ran while older instances of its owner were still open")
+	defer col.Flush()
+	rapid.Check(t, func(rt *rapid.T) {
+		cfg := kit.GenConfig(rt, dispOpts())
+		var panicking []int
+		x, err := startRunWith(cfg, nil, func(w *kit.World) {
+			w.ClosePanicRegs = map[int]bool{}
+			for _, r := range w.Cfg.Regs {
+				if r.Form != kit.FormInstance && rapid.IntRange(0, 2).Draw(rt, "closePanics") == 0 {
+					w.ClosePanicRegs[r.ID] = true
+					panicking = append(panicking, r.ID)
+				}
+			}
+		})
+		if err != nil {
+			rt.Fatal(err)
+		}
+		if x.Build.Err != nil || x.Build.Panic != nil {
+			col.Case(false, cfg.String(), nil, "build-failed(not judged here)")
+			return
+		}
+		x.genHistory(rt, histOpts{MaxSteps: 18, MaxDepth: 3, CloseScopes: true, CtxKinds: []int{0, 1}, NoCollEdits: true})
+		canon := fmt.Sprintf("%s\nclose methods that panic: registrations %v", x.describe(), panicking)
+		nt := false
+		for _, e := range x.W.AllEntries() {
+			if x.W.ClosePanicRegs[e.Reg] && e.CloseCount() > 0 {
+				nt = true
+			}
+		}
+		col.Case(nt, canon, canon)
+		if !x.R.PClosed {
+			return // the history ended early (no live scope left)
+		}
+		if f := x.checkC10(true); f != nil {
+			if isKnown(f) {
+				col.Excluded()
+				return
+			}
+			rt.Fatalf("VIOLATION %s\n%s", f, canon)
+		}
+	})
+}
